@@ -254,9 +254,9 @@ func VerifC16_AfterCleanup() {
 		zz.Assert(f.t.UseStore(chB, ipld.LinkSystem{}) == nil, "store registered")
 	}
 	reqA := verifArbitraryRequest("reqA")
-	reqA.TransferId = uint64(tidA)
+	zz.SetInt(&reqA.TransferId, uint64(tidA))
 	reqB := verifArbitraryRequest("reqB")
-	reqB.TransferId = uint64(tidB)
+	zz.SetInt(&reqB.TransferId, uint64(tidB))
 	f.t.gsReqRecdHook(pA, verifReqWith(r0, reqA), &verifActions{})
 	f.t.gsReqRecdHook(pA, verifReqWith(r1, reqA), &verifActions{})
 	f.t.gsOutgoingRequestHook(pB, verifReqWith(r2, reqB), &verifActions{})
@@ -308,7 +308,7 @@ func VerifC16_AfterCleanup() {
 	case 7:
 		resp := &verifRespData{id: rid, exts: map[graphsync.ExtensionName]ipld.Node{}}
 		respB := verifArbitraryResponse("respB") // a response is acceptable on B (we initiated) only
-		respB.TransferId = uint64(tidB)
+		zz.SetInt(&respB.TransferId, uint64(tidB))
 		resp.exts[extension.ExtensionDataTransfer1_1] = respB.ToIPLD()
 		f.t.gsIncomingResponseHook(p, resp, act)
 	default:
@@ -345,7 +345,7 @@ func VerifC16_PauseResumeCancelTarget() {
 	r0, r1, r2, r3 := verifRid("r0"), verifRid("r1"), verifRid("r2"), verifRid("r3")
 	zz.Assume(r0 != r1 && r0 != r2 && r0 != r3 && r1 != r2 && r1 != r3 && r2 != r3)
 	req := verifArbitraryRequest("req")
-	req.TransferId = uint64(tid)
+	zz.SetInt(&req.TransferId, uint64(tid))
 	ctx := context.Background()
 
 	// state: 0 = tracked, never requested; 1 = one request; 2 = restarted (second request)
